@@ -346,8 +346,8 @@ fn build_corpus() -> Corpus {
         u2f,
         cose,
         strs(&[crate::world::ANDROID_FP, "B3:5B"]),
-        strs(&["example.co.uk", "www.xn--bcher-kva.example", "a.b.c.d.e.f.g.h.example.com", "localhost", "xn--p1ai", "city.kawasaki.jp", "www.ck", "foo.bar.compute.amazonaws.com"]),
-        strs(&["https://login.example.com\nexample.com", "http://localhost:4000\nlocalhost", "https://xn--bcher-kva.example/path?q#f\nxn--bcher-kva.example", "https://[::1]:8443\n", "https://user:pw@sub.example.co.uk:1/\nexample.co.uk", "www.example.net\nexample.net"]),
+        strs(&["example.co.uk", "www.xn--bcher-kva.example", "a.b.c.d.e.f.g.h.example.com", "localhost", "xn--p1ai", "city.kawasaki.jp", "www.ck", "foo.bar.compute.amazonaws.com", "Example.CO.UK", "\u{212a}.com", "www.\u{212a}elvin.co.uk", "\u{1e9e}.example", "\u{130}.com", "a.\u{212a}", "\u{1c5}.example", "\u{fb01}.example", "\u{3a3}\u{3a3}.gr", "\u{ff21}.example.com", "e\u{301}.example", "\u{130}\u{130}\u{130}.co.uk"]),
+        strs(&["https://login.example.com\nexample.com", "http://localhost:4000\nlocalhost", "https://xn--bcher-kva.example/path?q#f\nxn--bcher-kva.example", "https://[::1]:8443\n", "https://user:pw@sub.example.co.uk:1/\nexample.co.uk", "www.example.net\nexample.net", "https://example.com\n\u{212a}.com", "https://www.example.co.uk\n\u{130}.co.uk", "https://\u{212a}.example\n\u{212a}.example", "www.\u{1e9e}.example\n\u{1e9e}.example"]),
         vec![vec![0x11; 64]],
         {
             let mut d = vec![0x03u8];
@@ -458,6 +458,21 @@ pub fn apply_faults(base: &[u8], faults: &[LinkFault]) -> Vec<u8> {
                 m = out;
             }
             LinkFault::Replace(b) => m = b.clone(),
+            LinkFault::DistinctEntries { prefix, count, json, suffix } => {
+                let mut out = Vec::with_capacity(prefix.len() + suffix.len() + 14 * (*count as usize));
+                out.extend_from_slice(prefix);
+                for i in 0..*count {
+                    if *json {
+                        out.extend_from_slice(format!("\"k{i:08x}\":0,").as_bytes());
+                    } else {
+                        out.push(0x69);
+                        out.extend_from_slice(format!("k{i:08x}").as_bytes());
+                        out.push(0x00);
+                    }
+                }
+                out.extend_from_slice(suffix);
+                m = out;
+            }
             LinkFault::ReplaceRange(at, len, bytes) => {
                 let at = (*at as usize).min(m.len());
                 let end = (at + *len as usize).min(m.len());
@@ -732,6 +747,38 @@ fn sweep_for(decoder: &str, base: &[u8]) -> Vec<Vec<LinkFault>> {
             out.push(vec![LinkFault::ByteSet(65, l)]);
         }
     }
+    // large maps of pairwise different keys (a duplicate check, an ordered insert or a linear lookup per
+    // entry would make these quadratic)
+    if decoder == "bin:AuthenticatorData" {
+        for count in [4_000u32, 40_000] {
+            // rpIdHash, flags UP|ED, counter, then the extension map
+            let mut prefix = vec![0x5a; 32];
+            prefix.push(0x81);
+            prefix.extend_from_slice(&[0, 0, 0, 7]);
+            prefix.push(0xba);
+            prefix.extend_from_slice(&count.to_be_bytes());
+            out.push(vec![LinkFault::DistinctEntries { prefix, count, json: false, suffix: vec![] }]);
+        }
+    }
+    if decoder == "cbor:get_info::Response" || decoder == "cbor:make_credential::Request" || decoder == "cbor:get_assertion::Request" {
+        // the options / extensions member as a huge map
+        let key: u8 = if decoder == "cbor:get_info::Response" { 0x04 } else if decoder == "cbor:make_credential::Request" { 0x06 } else { 0x04 };
+        for count in [4_000u32, 40_000] {
+            let mut prefix = vec![0xa1, key, 0xba];
+            prefix.extend_from_slice(&count.to_be_bytes());
+            out.push(vec![LinkFault::DistinctEntries { prefix, count, json: false, suffix: vec![] }]);
+        }
+    }
+    if decoder == "json:CredentialRequestOptions" || decoder == "json:AuthenticatedPublicKeyCredential" {
+        let (pre, suf) = if decoder == "json:CredentialRequestOptions" {
+            ("{\"publicKey\":{\"challenge\":\"AA\",\"extensions\":{", "\"z\":0}}}")
+        } else {
+            ("{\"id\":\"AA\",\"rawId\":\"AA\",\"type\":\"public-key\",\"response\":{\"clientDataJSON\":\"AA\",\"authenticatorData\":\"AA\",\"signature\":\"AA\"},\"clientExtensionResults\":{", "\"z\":0}}")
+        };
+        for count in [4_000u32, 40_000] {
+            out.push(vec![LinkFault::DistinctEntries { prefix: pre.as_bytes().to_vec(), count, json: true, suffix: suf.as_bytes().to_vec() }]);
+        }
+    }
     // large repetitive inputs: time must stay in proportion to the size
     let units: [&[u8]; 9] = [b"A\n", b"A", b" ", b"1", b"a.", b"AA:", b"\\u0041", b"=", b"-_"];
     let big = |pre: &str, unit: &[u8], total: usize, suf: &str| LinkFault::Repeat { prefix: pre.as_bytes().to_vec(), unit: unit.to_vec(), times: (total / unit.len()) as u32, suffix: suf.as_bytes().to_vec() };
@@ -985,6 +1032,7 @@ impl Family for C15Family {
                     LinkFault::Nest { .. } => "deep_nesting",
                     LinkFault::Replace(_) => "replace",
                     LinkFault::ReplaceRange(..) => "item_of_other_type_or_size",
+                    LinkFault::DistinctEntries { .. } => "large_map_of_distinct_keys",
                     LinkFault::Repeat { .. } => "large_repetitive_input",
                 },
                 1,
